@@ -213,7 +213,7 @@ def gen_branch(r, max_links=3, quiet_rate=0.2, allow_opt=False):
     nlinks = r.choice([0, 1, 1, 1, 2, 2, 3][:2 + 2 * max_links])
     steps = []
     for _ in range(nlinks):
-        if allow_opt and r.random() < 0.15:
+        if allow_opt and r.random() < 0.3:
             ls = [("opt", "extra")]
         else:
             ls = r.choice(LINK_STEPS)
